@@ -263,7 +263,12 @@ def gen_steps(r, cols: Dict[str, str], tables: Dict[str, Dict[str, str]], max_st
             else:
                 expr = str(r.randrange(0, 5))
                 outk = "nn"
-            steps.append({"t": "extend", "ops": {new: expr}})
+            ops_d = {new: expr}
+            if r.random() < 0.25:
+                new2 = _fresh({**cols, new: "int"}, "u")
+                ops_d[new2] = f"{r.choice(nums)} {r.choice(ROW_FNS_2)} {r.randrange(1, 4)}"
+                cols[new2] = "float"
+            steps.append({"t": "extend", "ops": ops_d})
             cols[new] = outk if outk in ("int", "float", "nn") else "int"
         elif kind == "wextend" and nums and groups:
             new = _fresh(cols, "w")
@@ -313,6 +318,14 @@ def gen_steps(r, cols: Dict[str, str], tables: Dict[str, Dict[str, str]], max_st
             cols[new] = "nn" if fn in ("_row_number", "rank", "_count", "cumcount") else ("float" if cols[v] == "float" else "int")
             if fn in ("_row_number",):
                 cols[new] = "nn"
+        elif kind == "project" and nums and depth < 2 and r.random() < 0.12:
+            ops = {}
+            for _ in range(r.choice([1, 2])):
+                fn = r.choice(["sum", "min", "max", "mean", "count", "size"])
+                new = _fresh(ops, r.choice(["p", "q", "t"]))
+                ops[new] = "_size()" if fn == "size" else f"{r.choice(nums)}.{fn}()"
+            steps.append({"t": "project", "ops": ops, "group_by": []})
+            cols = {k_: "float" for k_ in ops}
         elif kind == "project" and nums and groups and depth < 2:
             by = sorted(r.sample(groups, r.choice([1, 1, 2]) if len(groups) > 1 else 1))
             ops = {}
@@ -341,6 +354,8 @@ def gen_steps(r, cols: Dict[str, str], tables: Dict[str, Dict[str, str]], max_st
                     expr = f"{gcol} {r.choice(['==', '!='])} 1"
             elif nums:
                 expr = f"{r.choice(nums)} {r.choice(['>', '<', '>=', '<=', '==', '!='])} {r.randrange(-2, 12)}"
+                if r.random() < 0.25:
+                    expr = f"({expr}) {r.choice(['and', 'or'])} ({r.choice(nums)} {r.choice(['>', '<='])} {r.randrange(0, 9)})"
             else:
                 continue
             steps.append({"t": "select_rows", "expr": expr})
